@@ -1,6 +1,8 @@
 package main
 
 import (
+	"fmt"
+
 	"verifharness/internal/idlgen"
 	"verifharness/internal/values"
 )
@@ -73,6 +75,86 @@ func unionProgram() *idlgen.Program {
 	return &idlgen.Program{Files: []*idlgen.File{f}}
 }
 
+// wideProgram: the aimed unit for the slot table of the field-mask library (fieldmask/storage.go: ids 0.._MaxFieldIDHead live in an
+// array, all others in a map): one field per boundary id, alternately a struct, a string and a list of structs, so that every id is
+// selected / rejected directly and one level below.
+func wideProgram(ids []int16) *idlgen.Program {
+	ty := func(k idlgen.Kind) *idlgen.Type { return &idlgen.Type{Kind: k} }
+	named := func(n string) *idlgen.Type { return &idlgen.Type{Kind: idlgen.Named, Named: &idlgen.NamedRef{File: 0, Name: n}} }
+	f := &idlgen.File{Path: "dwide.thrift", GoNS: "dwide"}
+	wide := &idlgen.Struct{Kind: 's', Name: "Wide"}
+	for i, id := range ids {
+		name := fmt.Sprintf("f%d", id)
+		if id < 0 {
+			name = fmt.Sprintf("n%d", -int(id))
+		}
+		var t *idlgen.Type
+		switch i % 3 {
+		case 0:
+			t = named("Pair")
+		case 1:
+			t = ty(idlgen.String)
+		default:
+			t = &idlgen.Type{Kind: idlgen.List, Elem: named("Pair")}
+		}
+		wide.Fields = append(wide.Fields, &idlgen.Field{ID: id, HasID: true, Name: name, Req: idlgen.Default, Type: t})
+	}
+	f.Structs = []*idlgen.Struct{
+		{Kind: 's', Name: "Pair", Fields: []*idlgen.Field{
+			{ID: 1, HasID: true, Name: "a", Req: idlgen.Default, Type: ty(idlgen.String)},
+			{ID: 2, HasID: true, Name: "b", Req: idlgen.Optional, Type: ty(idlgen.String)},
+		}},
+		wide,
+	}
+	return &idlgen.Program{Files: []*idlgen.File{f}}
+}
+
+// wideCases: every field of Wide alone, white and black, by name and (non-negative ids) by id, directly and one level below;
+// plus all fields together.
+func wideCases(st *idlgen.SStruct) []directedCase {
+	pair := func(a, b string) *values.Value { return values.Record(values.Str(a), values.Str(b)) }
+	v := &values.Value{K: values.KRecord}
+	for _, f := range st.Fields {
+		tag := fmt.Sprint(f.ID)
+		switch f.Type.Kind {
+		case idlgen.RStruct:
+			v.E = append(v.E, pair("a"+tag, "b"+tag))
+		case idlgen.RList:
+			v.E = append(v.E, values.List(pair("x"+tag, "y"+tag), pair("z"+tag, "w"+tag)))
+		default:
+			v.E = append(v.E, values.Str("s"+tag))
+		}
+	}
+	var out []directedCase
+	below := func(t *idlgen.RType, byName bool) *mnode {
+		inner := &mnode{kids: []*mkid{fieldKid(1, "a", byName, leafNode())}}
+		switch t.Kind {
+		case idlgen.RStruct:
+			return inner
+		case idlgen.RList:
+			return idxNode(inner, 0)
+		}
+		return nil
+	}
+	for _, black := range []bool{false, true} {
+		all := &mnode{}
+		for _, f := range st.Fields {
+			for _, byName := range []bool{true, false} {
+				if !byName && f.ID < 0 {
+					continue // `.-1` is read as a name
+				}
+				out = append(out, directedCase{v, black, &mnode{kids: []*mkid{fieldKid(int64(f.ID), f.Name, byName, leafNode())}}})
+				if sub := below(f.Type, byName); sub != nil {
+					out = append(out, directedCase{v, black, &mnode{kids: []*mkid{fieldKid(int64(f.ID), f.Name, byName, sub)}}})
+				}
+			}
+			all.kids = append(all.kids, fieldKid(int64(f.ID), f.Name, f.ID < 0, leafNode()))
+		}
+		out = append(out, directedCase{v, black, all})
+	}
+	return out
+}
+
 type directedCase struct {
 	v     *values.Value
 	black bool
@@ -135,6 +217,9 @@ func directedCases(s *idlgen.Schema, sidx int) []directedCase {
 				directedCase{v, black, nil})
 		}
 		return out
+	}
+	if s.Structs[sidx].Name == "Wide" {
+		return wideCases(s.Structs[sidx])
 	}
 	if s.Structs[sidx].Name != "Box" {
 		return nil
